@@ -136,6 +136,16 @@ def replay_ordering(args):
 
 
 def replay_memo(args):
+    if args.get("what") == "ren_coeffs":
+        from yadism.esf import scale_variations as svmod
+
+        shared = svmod.ScaleVariations(order=args["order"], interpolator=None, activate_ren=True, activate_fact=True)
+        for nf in args["seq"]:
+            got = shared.ren_coeffs(nf)
+            fresh = svmod.ScaleVariations(order=args["order"], interpolator=None, activate_ren=True, activate_fact=True).ren_coeffs(nf)
+            if got != fresh:
+                return True, f"after {args['seq']}: ren_coeffs({nf}) = {got}, a fresh manager gives {fresh}"
+        return False, "history independent"
     if args.get("what") == "fact_matrices":
         from yadism.esf import scale_variations as svmod
 
@@ -348,6 +358,26 @@ def run(chk, only=None):
                 else:
                     chk.report(f"memo:fact_matrices:mutates", f"ScaleVariations.fact_matrices(nf={nf}) modifies the operator memo / answers differently "
                                f"the second time (order {order})", "memo", dict(what="fact_matrices", nf=nf, order=order))
+        # answers of the shared scale-variation manager depend on nf only, not on what was asked before (one manager serves
+        # every kinematic point of a run, i.e. every nf region of a ZM-VFNS run)
+        for order in (2, 3):
+            for seq in ([3, 4, 3, 5, 6, 4] if q else [3, 4, 3, 5, 6, 4, 6, 3, 5]), [6, 5, 4, 3, 4, 5]:
+                shared = svmod.ScaleVariations(order=order, interpolator=None, activate_ren=True, activate_fact=True)
+                okr = True
+                for nf in seq:
+                    got = shared.ren_coeffs(nf)
+                    fresh = svmod.ScaleVariations(order=order, interpolator=None, activate_ren=True, activate_fact=True).ren_coeffs(nf)
+                    b0 = 11.0 - 2.0 * nf / 3.0
+                    if got != fresh or (order >= 2 and abs(got.get((2, 1, 1), 0) - b0) > 1e-12):
+                        okr = False
+                chk.obligations += 1
+                chk.evaluations += 1
+                chk.nontrivial.add(f"memo:ren_coeffs:{order}:{seq[0]}")
+                if okr:
+                    chk.discharged += 1
+                else:
+                    chk.report("memo:ren_coeffs:history", f"ScaleVariations.ren_coeffs depends on the nf values asked before (order {order}, sequence {seq})",
+                               "memo", dict(what="ren_coeffs", order=order, seq=seq))
         # interpolator memo: distinct arguments -> distinct grids, same arguments -> same object
         loads = []
 
